@@ -302,7 +302,48 @@ def worker(ctx):
               "a worker that cannot fetch a call item keeps running: nobody notices the lost task")
 
 
+UTILS = "joblib/externals/loky/backend/utils.py"
+
+
+def broken_branch_total(ctx):
+    """The manager thread must survive diagnosing a dead worker: the helpers it calls while building the
+    TerminatedWorkerError cannot raise on an unusual exit code."""
+    f = M(ctx, "wait_result_broken_or_wakeup")
+    start = [c for c in calls_in(f) if call_name(c) == "get_exitcodes_terminated_worker"]
+    ctx.need(start, "the broken branch no longer reports the workers' exit codes")
+    seen, todo = [], [ctx.repo.func(UTILS, "get_exitcodes_terminated_worker")]
+    while todo:
+        fn = todo.pop()
+        if any(fn is x for x in seen):
+            continue
+        seen.append(fn)
+        for c in calls_in(fn):
+            for t in ctx.res.resolve_call(c):
+                if getattr(t, "_module", None) is not None and t._module.relpath == UTILS:
+                    todo.append(t)
+    mod = ctx.repo.mod(UTILS)
+    mod_dicts = {t for st in mod.tree.body if isinstance(st, ast.Assign) and isinstance(st.value, (ast.Dict, ast.DictComp)) for t in stores_to(st)}
+    n = 0
+    for fn in seen:
+        for node in body_walk(fn):
+            need_exc = None
+            if isinstance(node, ast.Subscript) and isinstance(node.ctx, ast.Load) and dotted(node.value) in mod_dicts and not isinstance(node.slice, ast.Constant):
+                need_exc = "KeyError"
+            if isinstance(node, ast.Call) and call_name(node) in ("signal.Signals",):
+                need_exc = "ValueError"
+            if need_exc is None:
+                continue
+            n += 1
+            hs = [h for a_ in ancestors(node) if isinstance(a_, ast.Try) and in_block(node, a_.body) for h in a_.handlers]
+            ctx.check(any(handler_catches(h, [need_exc]) for h in hs), node, "%s: `%s` is guarded against %s" % (fn._qualname, unparse(node, 50), need_exc),
+                      "%s: `%s` raises %s for an exit code it does not know, and no handler catches it: the exception kills the executor manager thread while it reports a dead "
+                      "worker, so the pending futures are never failed (the Parallel call hangs)" % (fn._qualname, unparse(node, 50), need_exc))
+    ctx.floor(n, 1, "partial look-ups on the exit-code reporting path")
+    ctx.ok(f, "exit-code reporting path: %d helper functions scanned" % len(seen))
+
+
 def run(ctx):
+    ctx.run("C10.BROKEN-BRANCH-TOTAL", "R-ERRDISC", broken_branch_total)
     ctx.run("C10.SENTINELS", "R-FLOW", sentinels)
     ctx.run("C10.DEFAULT-BROKEN", "R-ORDER", default_broken)
     ctx.run("C10.FAIL-ALL", "R-ORDER", fail_all)
